@@ -126,6 +126,44 @@ theorem twoDocs_build (ign : Bool) (mk : Val.KVs → Val.KVs → TPath → Merge
   · simp only [twoDocs, transformBuild_short_eq_long, transformBuild_long_id]
   · simp only [twoDocs, (mergeBuild_short_eq_long mk s _ _).1]
 
+/-- **refining one dependency leaves the others as the long form says**: first document `depends_on: [names]`, second
+document `depends_on: {k: v}` (any `v`, any merger `f` below): whenever the pipeline succeeds, every other listed
+name still maps to `{condition: service_started, required: true}` -/
+theorem twoDocs_dependsOn_refine_one (f : Val → Val → TPath → Merge.Out Val) (names : List String) (hnd : names.Nodup)
+    (k : String) (v : Val) (p : TPath) (m : Val.KVs)
+    (h : twoDocs transformDependsOn (Merge.mergeKVsWith f) .dependsOn (.seq (names.map Val.str)) (.map [(k, v)]) p = .ok (.map m)) :
+    ∀ k' ∈ names, k' ≠ k → Val.lookup k' m = some startedRequired := by
+  intro k' hk' hne
+  obtain ⟨h1, _⟩ := transformDependsOn_short_eq_long names hnd
+  simp only [twoDocs, h1, bindOut, Merge.specialStep, Merge.convMerge, Merge.intoMap, Merge.Out.bind] at h
+  cases hm : Merge.mergeKVsWith f (names.map (fun n => (n, startedRequired))) [(k, v)] p with
+  | ok r =>
+    rw [hm] at h
+    simp only [liftM, transformDependsOn] at h
+    obtain ⟨y, hy⟩ := mergeOne_shape f _ r k v p hm
+    cases hd : dependsMap r with
+    | ok r2 =>
+      rw [hd] at h
+      simp only [Out.ok.injEq, Val.map.injEq] at h
+      subst h
+      have hl : Val.lookup k' r = some startedRequired := by
+        rw [hy, Merge.lookup_insert_ne hne]
+        exact lookup_long names k' hk' startedRequired
+      have := dependsMap_lookup r r2 hd k' _ hl
+      rw [this, startedRequired_fix]
+      rfl
+    | err x => rw [hd] at h; simp at h
+    | panic x => rw [hd] at h; simp at h
+  | err e => rw [hm] at h; simp [liftM] at h
+  | panic e => rw [hm] at h; simp [liftM] at h
+/-- non-vacuity: `[db, cache]` then `{db: {condition: service_healthy}}` succeeds (the hypothesis holds), and `cache` is untouched -/
+example : Val.lookup "cache" [("db", .map [("condition", .str "service_healthy"), ("required", .bool true)]), ("cache", startedRequired)]
+    = some startedRequired :=
+  twoDocs_dependsOn_refine_one (Merge.mergeYaml 8) ["db", "cache"] (by decide) "db" (.map [("condition", .str "service_healthy")])
+    ["services", "web", "depends_on"]
+    [("db", .map [("condition", .str "service_healthy"), ("required", .bool true)]), ("cache", startedRequired)]
+    (by rfl) "cache" (by simp) (by decide)
+
 /-- non-vacuity and the seeded scenario on the model: `[db, cache]` then `{db: {condition: service_healthy}}` — only `db` changes -/
 example :
     twoDocs transformDependsOn (Merge.mergeKVs 8) .dependsOn (.seq [.str "db", .str "cache"])
